@@ -14,7 +14,7 @@ META = {
                    "from_utf8().unwrap() cannot fail; 1029 decode accepts text only on the Ok arm of from_utf8 and reports InvalidUtf8String otherwise; "
                    "1029 encode refuses more than 127 characters / 255 bytes, which are exactly the capacities of the 7- and 8-bit count fields; the "
                    "descriptor codecs write len then the bytes and read them back under a capacity guard (C15 rules)."
-                   "(B-sem) the bit-exact reading of put / parse these clauses stand on (field bits MSB first at the cursor, nothing else touched) is the abstract interpretation of C07, imported and decided here too.",
+                   "(B-sem) the bit-exact reading of put / parse these clauses stand on (field bits MSB first at the cursor, nothing else touched) is the abstract interpretation of C07, imported and decided here too. The prefix loops and the 1029 byte loop are driven by the input's own iterator (no take / skip / filter adaptor) and perform their push / write on every iteration (X-cap, X-lim); a bulk copy of a &str prefix cut at a character boundary is accepted as a second writer idiom with its own lemma (bulk_prefix_writer).",
     "assumptions": [],
 }
 
